@@ -73,6 +73,8 @@ LastRowOK(e) ==
 
 CaseOK(e) ==
   /\ e.same_stream /\ e.same_file /\ e.len_buffer > 0
+  /\ e.reread_same                                         \* reading the buffer does not empty it
+  /\ e.two_solves_same                                     \* after a second solve buffer and stream both hold both logs
   /\ e.same_short_stream                                   \* a stream accepting a few bytes per call gets every byte
   /\ e.len_quiet_buffer = 0 /\ e.len_quiet_stream = 0 /\ e.len_after_sink = 0
   /\ e.getbuf_err = <<TRUE, TRUE, TRUE>>
